@@ -1,3 +1,6 @@
+//! NOTE: these Kani harnesses are retired (tier=off): CBMC 6.11 does not get past symbolic execution of any access
+//! to a `RequestAttemptError::DbError` payload (exponential `pointer_offset_bits` on the deeply nested error unions,
+//! see DESIGN.md). C06 is decided by engine S (vlib/smt_c06.py) on the MIR of the same functions instead.
 //! C06 — retry policy decision half: a non-idempotent request is re-sent only after a failure
 //! that proves it was not applied; Default never retries at serial consistency; Fallthrough never
 //! retries; same-target retries are bounded along any history.
@@ -213,33 +216,33 @@ macro_rules! vk_c06 {
     };
 }
 
-// VK: prop=C06 tier=quick cap=600 stubbed=1
+// VK: prop=C06 tier=off cap=600 stubbed=1
 // VK-funcs: DefaultRetryPolicy::new_session, DefaultRetrySession::{decide_should_retry,reset}, Consistency::is_serial
 // VK-bounds: history of 3 decisions on one session, reset() interleaved symbolically; each step: symbolic error over 5 RequestAttemptError variants (UnableToAllocStreamId, BrokenConnectionError, NonfinishedPagingState, RepreparedIdMissingInBatch, UnexpectedResponse) + DbError + all 20 DbError variants with all scalar fields symbolic (i32 counts, data_present, all 9 WriteTypes, error consistency), symbolic is_idempotent, request consistency over all 11 levels
 // VK-assumes: tracing stubbed; string/bytes payloads of errors empty; parse-error variants of RequestAttemptError (BodyExtensionsParseError, CqlErrorParseError, CqlRequestSerialization, CqlResultParseError, SerializationError) and RepreparedIdChanged (CBMC does not finish on its three heap fields) not constructed
 // VK-out: the executor honouring the decision (async run_request_speculative_fiber); histories longer than 3 (3 one-shot flags => every reachable session state is covered)
 vk_c06!(c06_default_k3, 3, Pol::Default);
 
-// VK: prop=C06 tier=quick cap=600 stubbed=1
+// VK: prop=C06 tier=off cap=600 stubbed=1
 // VK-funcs: DowngradingConsistencyRetryPolicy::new_session, DowngradingConsistencyRetrySession::{decide_should_retry,reset}
 // VK-bounds: as c06_default_k3 (history 3)
 // VK-assumes: as c06_default_k3
 // VK-out: as c06_default_k3; whether the downgraded consistency is sensible
 vk_c06!(c06_downgrading_k3, 3, Pol::Downgrading);
 
-// VK: prop=C06 tier=quick cap=300 stubbed=1
+// VK: prop=C06 tier=off cap=300 stubbed=1
 // VK-funcs: FallthroughRetryPolicy::new_session, FallthroughRetrySession::decide_should_retry
 // VK-bounds: history 2
 // VK-assumes: as c06_default_k3
 vk_c06!(c06_fallthrough_k2, 2, Pol::Fallthrough);
 
-// VK: prop=C06 tier=thorough cap=1800 stubbed=1
+// VK: prop=C06 tier=off cap=1800 stubbed=1
 // VK-funcs: DefaultRetrySession::{decide_should_retry,reset}
 // VK-bounds: history 5
 // VK-assumes: as c06_default_k3
 vk_c06!(c06_default_k5, 5, Pol::Default);
 
-// VK: prop=C06 tier=thorough cap=1800 stubbed=1
+// VK: prop=C06 tier=off cap=1800 stubbed=1
 // VK-funcs: DowngradingConsistencyRetrySession::{decide_should_retry,reset}
 // VK-bounds: history 5
 // VK-assumes: as c06_default_k3
@@ -253,26 +256,3 @@ vk_c06!(c06_downgrading_k5, 5, Pol::Downgrading);
 pub fn dbg_k1() {
     history::<1>(Pol::Default);
 }
-macro_rules! dbg_one {
-    ($name:ident, $e:expr) => {
-        #[kani::proof]
-        #[kani::unwind(6)]
-        #[kani::stub(tracing::__macro_support::__is_enabled, crate::stubs::tracing_is_enabled)]
-        #[kani::stub(tracing_core::callsite::DefaultCallsite::interest, crate::stubs::tracing_interest)]
-        #[kani::stub(tracing_core::Event::dispatch, crate::stubs::tracing_event_dispatch)]
-        pub fn $name() {
-            let mut session = DefaultRetryPolicy::new().new_session();
-            let err: RequestAttemptError = $e;
-            let d = session.decide_should_retry(RequestInfo::verif_new(&err, kani::any(), any_consistency()));
-            assert!(d != RetryDecision::IgnoreWriteError);
-            std::mem::forget(err);
-            std::mem::forget(session);
-            kani::cover!(true, "reach_end");
-        }
-    };
-}
-dbg_one!(dbg_1, RequestAttemptError::UnableToAllocStreamId);
-dbg_one!(dbg_2, RequestAttemptError::DbError(DbError::SyntaxError, String::new()));
-dbg_one!(dbg_3, RequestAttemptError::DbError(DbError::Unavailable { consistency: any_consistency(), required: kani::any(), alive: kani::any() }, String::new()));
-dbg_one!(dbg_4, RequestAttemptError::BrokenConnectionError(BrokenConnectionErrorKind::ChannelError.into()));
-dbg_one!(dbg_5, RequestAttemptError::DbError(DbError::WriteTimeout { consistency: any_consistency(), received: kani::any(), required: kani::any(), write_type: any_write_type() }, String::new()));
